@@ -347,7 +347,8 @@ theorem deep_self : ∀ (t : T), binOp3 t = true → SelfDeep t := by
       match kids, hIH, h3 with
       | [l, op, r], hIH, _ =>
         simp only
-        obtain ⟨b, hsb, hbi⟩ := shallowMatch_self (pp := pp) (sp := sp) (f1 := f) (ks1 := [l, op, r]) hm
+        obtain ⟨b, hsb, hbi⟩ := shallowMatch_self (cm := false) (pf := pf) (pp := pp) (sp := sp) (f1 := f) (f2 := f2)
+          (k := k) (fl := fl) (ks1 := [l, op, r]) (ks2 := [l, op, r]) (by simp [metasMatch])
         simp only [hsb, T.kids_mk]
         cases op with
         | mk ok of ofl oks =>
@@ -355,8 +356,8 @@ theorem deep_self : ∀ (t : T), binOp3 t = true → SelfDeep t := by
             (k := ok) (f1 := of) (f2 := of) (fl := ofl) (ks1 := oks) (ks2 := oks)
             (metasMatch_same true (T.mk ok of ofl oks))
           simp only [T.field_mk, hso]
-          obtain ⟨lm, hlm, hli⟩ := hIH l (by simp) cm "none" l.field (pp ++ [0]) (sp ++ [0]) (metasMatch_none _ _)
-          obtain ⟨rm, hrm, hri⟩ := hIH r (by simp) cm "none" r.field (pp ++ [2]) (sp ++ [2]) (metasMatch_none _ _)
+          obtain ⟨lm, hlm, hli⟩ := hIH l (by simp) false l.field l.field (pp ++ [0]) (sp ++ [0]) (by simp [metasMatch])
+          obtain ⟨rm, hrm, hri⟩ := hIH r (by simp) false r.field r.field (pp ++ [2]) (sp ++ [2]) (by simp [metasMatch])
           rw [T.setField_self] at hlm hrm
           have hbase := (identBinds_merged hbi hoi).1
           have h1 := identBinds_merged hbase hli
